@@ -17,6 +17,12 @@ import (
 // relative round-off error in big.Float precision numbers
 var dpSafeEpsilon = 1e-15
 
+// exactPrec is a precision, in bits, at which the orientation determinant of
+// finite float64 coordinates is computed without rounding: a float64 is a
+// multiple of 2^-1074 below 2^1024, so a difference needs at most 2099 bits, a
+// product of two differences 4198 and their difference 4199.
+const exactPrec = 4200
+
 // OrientationIndex returns the index of the direction of point relative
 // to a vector specified by vectorOrigin-vectorEnd
 //
@@ -36,6 +42,14 @@ func OrientationIndex(vectorOrigin, vectorEnd, point geom.Coord) orientation.Typ
 	}
 
 	var dx1, dy1, dx2, dy2 big.Float
+
+	// A zero big.Float takes the precision of its first operand (53 bits for a
+	// float64), which would round every sum and product below. With this
+	// precision all intermediate results are exact for finite float64 inputs.
+	dx1.SetPrec(exactPrec)
+	dy1.SetPrec(exactPrec)
+	dx2.SetPrec(exactPrec)
+	dy2.SetPrec(exactPrec)
 
 	// normalize coordinates
 	dx1.SetFloat64(vectorEnd[0]).Add(&dx1, big.NewFloat(-vectorOrigin[0]))
